@@ -4,8 +4,8 @@ from checks import zdd_common as Z
 META = {
     "technique": "Coq proof (induction on fuel over a hash-consing table model) + model/impl differential with verbatim node-id comparison",
     "design_ref": "DESIGN.md §7 C06",
-    "level_text": "Theorems C06_* in coq/theories/Zdd/Props.v: every arena op sequence refines explicit set-of-sets semantics (all lengths, all variables), count/contains/iter agree with the denoted family, standalone union/intersection/difference/extend/from_set/singleton denote the specified families and always return; the model is tied to the Rust by a differential run on every check",
-    "level_note": "Zdd::product is NOT proved (needs a merge on ascending lists): it is covered by the correspondence check and the explicit-set oracle only. Trusted: Coq kernel + vm_compute; the hand-written model (tied by differential run comparing roots, node counts, node table, iteration order verbatim); FxHashMap index modelled as linear search; the recursive iterator model vs the stack-machine iterators (tied by comparing iteration order); harness + Python driver",
+    "level_text": "Theorems C06_* in coq/theories/Zdd/Props.v: every arena op sequence refines explicit set-of-sets semantics (all lengths, all variables), count/contains/iter agree with the denoted family, standalone union/intersection/difference/product/extend/from_set/singleton denote the specified families and always return; the model is tied to the Rust by a differential run on every check",
+    "level_note": "Trusted: Coq kernel + vm_compute; the hand-written model (tied by differential run comparing roots, node counts, node table, iteration order verbatim); FxHashMap index modelled as linear search; the recursive iterator model vs the stack-machine iterators (tied by comparing iteration order); harness + Python driver",
 }
 CATS = ("algebra", "panic")
 
